@@ -701,8 +701,8 @@ func checkTypedKey(p *Prog, r *Report, kp func(string, string) string, kt *types
 	if sFn != nil {
 		o := NewOrigin(p, sFn)
 		t := o.Of(returnsOf(sFn)[0].Results[0])
-		if t.Op == "slicelit" {
-			for _, e := range t.Args {
+		if sElems, okS := sliceLiteralElements(t); okS {
+			for _, e := range sElems {
 				var fs []string
 				e.Walk(func(x *Term) {
 					if x.Op == "field" && len(x.Args) == 1 && x.Args[0].Op == "param" {
